@@ -10,19 +10,20 @@ T = 'Trusted: Lean 4.33 kernel (axioms of every theorem audited ⊆ {propext, Cl
 def C(technique, text, note, ref, modules):
     return dict(technique=technique, text=text, note=T + note, ref=ref)
 
+CORE = "core loops regenerated from the source by a translator and proved equal to the hand-written model (Properties/Core.lean); "
 CORR = "hand-written executable Lean model tied to the code by a differential correspondence run (same operation lines on the real code and on the compiled model) with an independent oracle"
 CHECKS = {
-    "C01": C("Lean 4 proof (invariant by induction over the context queue: monotone bindings => soundness w.r.t. Conforms) + " + CORR,
-             "Theorems about the Lean model of DLTypeContext (add / assert_context / _assert_tensor_shape / get_expected_shape); the model is tied to the code by seeded and corpus differential runs (25k contexts quick), and an independent Python oracle (first-occurrence assignment, reference evaluator) judges every accepted context.",
-             "Negative exponents (float path) are not modelled. The soundness theorem is about the model; equality of model and code is sampled, not proved.", "DESIGN.md §4 C01", []),
-    "C02": C("Lean 4 proof (completeness w.r.t. Conforms; trace theorem: body once, result handed through) + " + CORR,
-             "Trace theorem about the wrapper model (returned => body ran exactly once after the argument checks and its value is what the caller gets) and completeness of the context model; tied by differential runs through generated dltyped functions (all call styles, defaulted parameters of unhashable types) with identity of arguments/result observed.",
+    "C01": C("Lean 4 proof (invariant by induction over the context queue: monotone bindings => soundness w.r.t. Conforms); " + CORE + CORR,
+             "Theorems about the Lean model of DLTypeContext (add / assert_context / _assert_tensor_shape / get_expected_shape); the model is tied to the code by seeded and corpus differential runs (25k contexts quick), and an independent Python oracle (first-occurrence assignment, reference evaluator) judges every accepted context. The bodies of _assert_tensor_shape, assert_context and TensorTypeBase.check are regenerated from the source on every run by a statement-level translator (harness/translate_core.py) and proved equal to the model for all inputs (Properties/Core.lean), so these theorems are re-checked against what the code says now.",
+             "Negative exponents (float path) are not modelled. The soundness theorem is about the model; equality of model and code is proved for the translated loop bodies (trusting the translator and three fixed loop skeletons) and sampled for get_expected_shape, add and the expression parser/evaluator.", "DESIGN.md §4 C01", []),
+    "C02": C("Lean 4 proof (completeness w.r.t. Conforms; trace theorem: body once, result handed through); " + CORE + CORR,
+             "Trace theorem about the wrapper model (returned => body ran exactly once after the argument checks and its value is what the caller gets) and completeness of the context model; tied by differential runs through generated dltyped functions (all call styles, defaulted parameters of unhashable types) with identity of arguments/result observed. The bodies of _assert_tensor_shape, assert_context and TensorTypeBase.check are regenerated from the source on every run by a statement-level translator (harness/translate_core.py) and proved equal to the model for all inputs (Properties/Core.lean), so these theorems are re-checked against what the code says now.",
              "inspect.Signature.bind/apply_defaults is not modelled (the harness hands the model the bound arguments).", "DESIGN.md §4 C02", []),
-    "C03": C("Lean 4 proof (iff characterisation of check(): rank, dtype, aligned literal axes; order and truth of the reported error) + " + CORR,
-             "check_ok_iff / rank_error_first / dtype_error_second / shape_error_is_true over the Lean model of TensorTypeBase.check, for every annotation the shape parser can produce; exhaustive-small differential run (all shape strings <=4 dims with the marker in every position x ranks 0..5) judged by an independent oracle.",
+    "C03": C("Lean 4 proof (iff characterisation of check(): rank, dtype, aligned literal axes; order and truth of the reported error); " + CORE + CORR,
+             "check_ok_iff / rank_error_first / dtype_error_second / shape_error_is_true over the Lean model of TensorTypeBase.check, for every annotation the shape parser can produce; exhaustive-small differential run (all shape strings <=4 dims with the marker in every position x ranks 0..5) judged by an independent oracle. The bodies of _assert_tensor_shape, assert_context and TensorTypeBase.check are regenerated from the source on every run by a statement-level translator (harness/translate_core.py) and proved equal to the model for all inputs (Properties/Core.lean), so these theorems are re-checked against what the code says now.",
              "", "DESIGN.md §4 C03", []),
     "C04": C("Lean 4 proof by kernel evaluation (decide +kernel) over the complete, regenerated class x dtype acceptance table",
-             "The acceptance table is re-observed from the real classes on every run for every dtype numpy(+ml_dtypes)/torch/jax can construct and written into Generated/DtypeTables.lean; table_is_documented, membership_is_check and superset_relations are decided by the kernel over the whole table (a finite domain enumerated completely).",
+             "The acceptance table is re-observed from the real classes on every run for every dtype numpy(+ml_dtypes)/torch/jax can construct and written into Generated/DtypeTables.lean; table_is_documented, membership_is_check and superset_relations are decided by the kernel over the whole table (a finite domain enumerated completely). The bodies of _assert_tensor_shape, assert_context and TensorTypeBase.check are regenerated from the source on every run by a statement-level translator (harness/translate_core.py) and proved equal to the model for all inputs (Properties/Core.lean), so these theorems are re-checked against what the code says now.",
              "Completeness of the dtype enumeration for the installed libraries; bfloat16 outside torch and non-native byte orders are outside the claim.", "DESIGN.md §4 C04", []),
     "C05": C("Lean 4 proof (shunting-yard compiler correctness; stack machine = tree evaluator) over a model tied to the source by a translator (precedence table, operator sets, operator bodies) + " + CORR,
              "Kernel-checked theorems about the Lean model of the tokenizer/parser/evaluator; precedence table, operator sets and operator bodies are regenerated from _parser.py on every run and proved equal to the model's; exhaustive-small and seeded differential runs with an independent recursive-descent grammar oracle (Spec/Grammar.lean).",
@@ -34,7 +35,7 @@ CHECKS = {
              "args_rejected_no_body / return_rejected_body_once / return_hint_not_in_args_phase over the wrapper model; differential runs with a body that logs its side effects and a logged assert_context, one violation placed per argument position / tuple element / return.",
              "", "DESIGN.md §4 C07", []),
     "C08": C("Lean 4 proof (error-class table by decide over the regenerated _errors.py; report lemmas of check()) + " + CORR + " judging every report's fields",
-             "Every error class derives from DLTypeError <= TypeError (generated table); reports (tensor name, axis, expected, actual) of every rejection are judged by an independent oracle from both the exception attributes and the message; the full statement 'nothing but DLTypeErrors' is false (known finding F7, Lean witness).",
+             "Every error class derives from DLTypeError <= TypeError (generated table); reports (tensor name, axis, expected, actual) of every rejection are judged by an independent oracle from both the exception attributes and the message; the full statement 'nothing but DLTypeErrors' is false (known finding F7, Lean witness). The bodies of _assert_tensor_shape, assert_context and TensorTypeBase.check are regenerated from the source on every run by a statement-level translator (harness/translate_core.py) and proved equal to the model for all inputs (Properties/Core.lean), so these theorems are re-checked against what the code says now.",
              "F7 (evaluation / zip errors are not converted) is an open known finding.", "DESIGN.md §4 C08, §5 F7", []),
     "C09": C("Lean 4 proof (state machine over histories: calls leave the state unchanged, verdict = fresh verdict; shared-state audit regenerated from the AST) + " + CORR + " on histories and threads",
              "call_leaves_state / verdict_is_fresh / calls_do_not_matter over the history model; state_components_modelled proves the list of non-local stores, caches and module-level mutables found in the source equal to the list the model accounts for; random histories (shared aliases, providers, nesting) and 8-thread runs compared with fresh verdicts; provider mappings and annotation objects snapshotted.",
@@ -46,16 +47,16 @@ CHECKS = {
              "tuple_hint_is_tuple / tuple_elements_queued (exactly the annotated positions, in order, with their index) / display_names; exhaustive tuple hints of length 1..4 with annotated/plain mixes as parameter and return.",
              "", "DESIGN.md §4 C11", []),
     "C12": C("Lean 4 proof (provider resolution and its place in the call; history lemma) + " + CORR + " on histories with provider updates",
-             "provider_resolution / self_needs_method / provider_scope_is_initial / provider_update_takes_effect; histories with fresh and long-lived provider dicts changed between calls, non-protocol objects, 'self' with and without a method.",
+             "provider_resolution / self_needs_method / provider_scope_is_initial / provider_update_takes_effect; histories with fresh and long-lived provider dicts changed between calls, non-protocol objects, 'self' with and without a method. The bodies of _assert_tensor_shape, assert_context and TensorTypeBase.check are regenerated from the source on every run by a statement-level translator (harness/translate_core.py) and proved equal to the model for all inputs (Properties/Core.lean), so these theorems are re-checked against what the code says now.",
              "", "DESIGN.md §4 C12", []),
     "C13": C("Lean 4 proof (decision table by decide over the regenerated decorator guards) + exhaustive subprocess matrix",
-             "guards_are_modelled / env_is_modelled tie the three decorators' `enabled` default and first guard, the env prefix/fields and the logger branches to the source; disabled_means_identity decides the table; 23 fresh interpreters cover DLTYPE_DISABLE x DLTYPE_DEBUG_MODE x logging x decorator x enabled with a 24-call verdict corpus.",
+             "guards_are_modelled / env_is_modelled tie the three decorators' `enabled` default and first guard, the env prefix/fields and the logger branches to the source; disabled_means_identity decides the table; 23 fresh interpreters cover DLTYPE_DISABLE x DLTYPE_DEBUG_MODE x logging x decorator x enabled with a 29-call verdict corpus.",
              "Environment parsing is pydantic-settings' (observed, not modelled).", "DESIGN.md §4 C13", []),
     "C14": C("Lean 4 proof (incremental = batch, by induction over the field list) + " + CORR + " in all four forms",
              "incremental_eq_batch: the pydantic fold (check; add; assert per field) equals one batch run; every generated field list is presented as function, dataclass, NamedTuple and pydantic model and the four verdicts/reports must coincide.",
              "", "DESIGN.md §4 C14", []),
     "C15": C("Lean 4 proof (congruence of the checker under equal shapes and equal acceptance; library independence of the shared categories by decide +kernel over the table) + " + CORR + " under all 3^n library assignments",
-             "runEntries_congr + shared_categories_library_independent; every generated context is re-run under all assignments of numpy/torch/jax to its arrays.",
+             "runEntries_congr + shared_categories_library_independent; every generated context is re-run under all assignments of numpy/torch/jax to its arrays. The bodies of _assert_tensor_shape, assert_context and TensorTypeBase.check are regenerated from the source on every run by a statement-level translator (harness/translate_core.py) and proved equal to the model for all inputs (Properties/Core.lean), so these theorems are re-checked against what the code says now.",
              "", "DESIGN.md §4 C15", []),
     "C16": C("Lean 4 proof (partial: call-transparency trace theorems) + observation against an undecorated twin",
              "body_exception_propagates / bodyRaised_only_from_body / no_hints_identity (+ C02b); name/doc/signature, argument passing for every parameter kind/default/binding, dataclass and NamedTuple behaviour (eq, repr, isinstance, immutability, pickle) are observed against undecorated twins (3.3k cases quick).",
@@ -67,7 +68,7 @@ CHECKS = {
              "The printer model (Symbolic.lean) is compared with str(Shape[...]) on exhaustive-small and random trees; parse(print s) is compared with Python's evaluation of the operator expression; the full statement is false (known finding F12: no parentheses are inserted; negative folded literals).",
              "F12/F12n are open known findings; outside their region the printed string must evaluate to Python's value.", "DESIGN.md §4 C18, §5 F12", []),
     "C19": C("Lean 4 proof (partial: eager transparency, scripting guard) + observation of generated torch modules under trace / script / compile against undecorated twins",
-             "eager_transparent, scripting_returns_function_itself; 8 generated modules x {eager, jit.trace, jit.script, torch.compile(eager)} x conforming / non-conforming inputs.",
+             "eager_transparent, scripting_returns_function_itself; 14 generated modules x {eager, jit.trace (positional and keyword example inputs), jit.script, torch.compile(eager)} x conforming / non-conforming inputs.",
              "TorchScript, the tracer and dynamo are not modelled at all: capture modes are observed only.", "DESIGN.md §4 C19", []),
     "C20": C("Lean 4 proof (decision tables by decide over the regenerated selection logic, all 8 environments) + 8 fresh interpreters",
              "import_outcome / supported_types / exports / universal_dtypes_are_union over the if/elif chains of _dtypes.py and __init__.py and the DTYPES expressions of _universal_tensors.py rendered by the translator; each of the 8 availability combinations is realised in a fresh interpreter and compared.",
